@@ -739,6 +739,232 @@ def _install():
                        if n is not None])
 
 
+
+# ----------------------------------------------------------------------------------------------
+# completeness of the registry with respect to the PUBLIC API (extra_checks)
+#
+# Every public name of `audiolazy.__all__`, every strategy of every public StrategyDict, every
+# public method of Stream / StreamTeeHub / Streamix / TableLookup and the `__call__` of the filter
+# and polynomial classes must be
+#   * exercised by a registry entry (COVER: api name -> entries that build it on counting sources), or
+#   * an elementwise function (probed here, ALL of them: 0 reads at construction, k reads for k outputs), or
+#   * excluded with a reason (EXCLUDE).
+# A name in none of the three fails the check; so does a covered callable whose signature has a
+# parameter that the table PARAMS does not classify (source / aux = a counting source stands for it;
+# scalar / callable / container = why no counting source can).
+# ----------------------------------------------------------------------------------------------
+COVER = {
+    "Stream": ["Stream", "Stream(a,b)", "append.stream"], "Stream.map": ["Stream.map"], "Stream.filter": ["Stream.filter"],
+    "Stream.skip": ["Stream.skip", "x:Stream.skip"], "Stream.limit": ["Stream.limit", "x:Stream.limit"],
+    "Stream.append": ["Stream.append", "prepend", "append.stream"], "Stream.blocks": ["blocks"],
+    "Stream.copy": ["Stream.copy"], "Stream.take": ["entry:take"], "Stream.peek": ["entry:take", "entry:peek"],
+    "Stream.__call__": ["Stream.__call__"], "Stream.__getattr__": ["Stream.real"], "Stream.__iter__": ["Stream"],
+    "Stream.__abs__": ["op.unary"], "Stream.<operators>": ["op.scalar", "op.unary", "op.iter"],
+    "StreamTeeHub": ["thub"], "thub": ["thub", "Poly.__call__", "ZFilter.timevarying"],
+    "StreamTeeHub.skip": ["Stream.skip", "x:Stream.skip"], "StreamTeeHub.limit": ["Stream.limit", "x:Stream.limit"],
+    "StreamTeeHub.append": ["Stream.append"], "StreamTeeHub.map": ["Stream.map"], "StreamTeeHub.filter": ["Stream.filter"],
+    "StreamTeeHub.copy": ["entry:peek"], "StreamTeeHub.__iter__": ["thub"],
+    "Streamix": ["Streamix"], "Streamix.add": ["Streamix"], "tostream": ["zcross", "unwrap", "modulo_counter"],
+    "imap": ["imap", "imap2"], "ifilter": ["ifilter"], "ifilterfalse": ["ifilterfalse"], "compress": ["compress"],
+    "takewhile": ["takewhile", "x:takewhile"], "dropwhile": ["dropwhile"], "cycle": ["cycle"], "islice": ["islice", "x:islice"],
+    "starmap": ["starmap"], "pairwise": ["pairwise"], "batched": ["batched"], "groupby": ["groupby"],
+    "izip.izip": ["izip"], "izip.longest": ["izip.longest"], "izip_longest": ["izip.longest"],
+    "chain.chain": ["chain", "append.stream"], "chain.star": ["chain.star", "append.stream"], "tee": ["tee"],
+    "accumulate.accumulate": ["accumulate.itertools"], "accumulate.func": ["accumulate.func"], "accumulate.z": ["accumulate.z"],
+    "z": ["ZFilter.__call__", "ZFilter.timevarying"], "ZFilter": ["ZFilter.__call__"], "LinearFilter": ["ZFilter.__call__"],
+    "LinearFilter.__call__": ["ZFilter.__call__", "ZFilter.timevarying"],
+    "CascadeFilter": ["CascadeFilter"], "ParallelFilter": ["ParallelFilter"], "FilterList": ["CascadeFilter", "ParallelFilter"],
+    "CascadeFilter.__call__": ["CascadeFilter"], "ParallelFilter.__call__": ["ParallelFilter"],
+    "comb.fb": ["filter.design"], "comb.tau": ["filter.design"], "comb.ff": ["filter.design"],
+    "Poly": ["Poly.__call__"], "Poly.__call__": ["Poly.__call__"], "x": ["Poly.__call__"], "resample": ["resample", "resample.tv"],
+    "gammatone.sampled": ["gammatone"], "gammatone.slaney": ["gammatone"], "gammatone.klapuri": ["gammatone"],
+    "zcross": ["zcross"], "clip": ["clip"], "unwrap": ["unwrap"], "amdf": ["amdf"],
+    "envelope.rms": ["envelope.rms"], "envelope.abs": ["envelope.abs"], "envelope.squared": ["envelope.squared"],
+    "maverage.deque": ["maverage.deque"], "maverage.recursive": ["maverage.recursive"], "maverage.fir": ["maverage.fir"],
+    "overlap_add.list": ["overlap_add.list", "stft"], "stft.rfft": ["stft"],
+    "blocks": ["blocks"], "zero_pad": ["zero_pad"], "chunks.struct": ["chunks.struct"], "chunks.array": ["chunks.array"],
+    "modulo_counter": ["modulo_counter"], "sinusoid": ["sinusoid"], "attack": ["attack"],
+    "TableLookup": ["TableLookup.__call__"], "TableLookup.__call__": ["TableLookup.__call__"],
+    "sin_table": ["TableLookup.__call__"], "saw_table": ["TableLookup.__call__"],
+}
+for _fam in ("lowpass", "highpass"):
+    for _st in ("pole", "z", "pole_exp", "z_exp"):
+        COVER["%s.%s" % (_fam, _st)] = ["filter.design"]
+for _st in ("poles_exp", "freq_poles_exp", "z_exp", "freq_z_exp"):
+    COVER["resonator." + _st] = ["filter.design"]
+
+_R_BLOCK = "works on ONE finite block / container given as a whole and returns a container or a number (eager by definition)"
+_R_SRC = "takes numbers only and generates values: a source, not a stage (nothing it could read)"
+_R_COMBI = "combinatoric itertools: itertools itself copies the whole pool (`tuple(iterable)`) when the object is made - documented, cannot be lazy"
+_R_NUM = "number / string helper: no iterable in, no iterable out"
+_R_INFRA = "language / class machinery (compatibility aliases of builtins, metaclasses, decorators, containers of strategies)"
+_R_IO = "hardware or file I/O object (C17 / C18 own the chunk and file layers); not buildable on a counting source"
+_R_LEAK = "a private itertools name that the `for func in dir(it)` loop of lazy_itertools leaks into __all__; not an API"
+_R_NUMPY = "needs numpy, which the environment of the repo does not have (ImportError at call)"
+EXCLUDE = {}
+for _n in ("acorr", "lag_matrix", "dft", "toeplitz", "levinson_durbin", "parcor", "parcor_stable", "lsf", "lsf_stable", "lagrange.func",
+           "lagrange.poly", "almost_eq.bits", "almost_eq.diff", "ParCorError", "rst_table", "small_doc"):
+    EXCLUDE[_n] = _R_BLOCK
+for _n in ("line", "fadein", "fadeout", "ones", "zeros", "zeroes", "adsr", "white_noise", "gauss_noise", "impulse", "count", "repeat",
+           "ControlStream"):
+    EXCLUDE[_n] = _R_SRC
+EXCLUDE["karplus_strong"] = ("freq and tau must be numbers (a Stream raises TypeError): `comb.tau(...).linearize()(zeros(), memory=memory)` - "
+                             "a source; its `memory` iterable is a filter memory (read when the filter is called, TRUSTED line)")
+for _n in ("combinations", "combinations_with_replacement", "permutations", "product"):
+    EXCLUDE[_n] = _R_COMBI
+for _n in ("gammatone_erb_constants", "str2freq", "str2midi", "freq2str", "midi2str", "octaves", "sHz", "multiplication_formatter",
+           "pair_strings_sum_formatter", "format_docstring", "factorial", "rint"):
+    EXCLUDE[_n] = _R_NUM
+for _n in ("orange", "xrange", "xzip", "xzip_longest", "xmap", "xfilter", "iteritems", "itervalues", "im_func", "meta",
+           "OpMethod", "AbstractOperatorOverloaderMeta", "MultiKeyDict", "StrategyDict", "LinearFilterProperties", "ZFilterMeta",
+           "FilterListMeta", "PolyMeta", "StreamMeta", "TableLookupMeta", "avoid_stream", "MemoryLeakWarning", "elementwise", "cached",
+           "Stream.register_ignored_class", "StreamTeeHub.take", "TableLookup.table", "TableLookup.harmonize", "TableLookup.normalize"):
+    EXCLUDE[_n] = _R_INFRA
+for _n in ("RecStream", "AudioIO", "AudioThread", "WavStream"):
+    EXCLUDE[_n] = _R_IO
+for _n in ("_grouper", "_tee", "_tee_dataobject", "BuiltinImporter"):
+    EXCLUDE[_n] = _R_LEAK
+for _n in ("overlap_add.numpy", "stft.cfft", "stft.cfftr"):
+    EXCLUDE[_n] = _R_NUMPY
+# strategy dictionaries of block / number functions: every strategy is a block function
+BLOCK_DICTS = {"window": _R_BLOCK, "wsymm": _R_BLOCK, "lpc": _R_BLOCK, "erb": _R_NUM, "phon2dB": _R_NUM, "float_str": _R_NUM}
+
+# covered callables with inspectable signatures: role of EVERY parameter
+#   source / aux : a counting source stands for it in the named registry entries
+#   scalar       : must be a number (the code does arithmetic / range() / comparisons with it at once)
+#   callable, container (finite list consumed when the stage is made, by design), flag, any
+PARAMS = {
+    "zcross": {"seq": "source", "hysteresis": "scalar", "first_sign": "scalar"},
+    "clip": {"sig": "source", "low": "scalar", "high": "scalar"},
+    "unwrap": {"sig": "source", "max_delta": "scalar", "step": "scalar"},
+    "amdf": {"lag": "scalar", "size": "scalar"},
+    "blocks": {"seq": "source", "size": "scalar", "hop": "scalar", "padval": "any"},
+    "zero_pad": {"seq": "source", "left": "scalar", "right": "scalar", "zero": "any"},
+    "resample": {"sig": "source", "old": "aux", "new": "aux", "order": "scalar", "zero": "any"},
+    "modulo_counter": {"start": "source", "modulo": "source", "step": "source"},
+    "sinusoid": {"freq": "source", "phase": "source"},
+    "attack": {"a": "scalar", "d": "scalar", "s": "source"},
+    "tee": {"data": "source", "n": "scalar"}, "thub": {"data": "source", "n": "scalar"},
+    "Stream.take": {"self": "source", "n": "scalar", "constructor": "callable"},
+    "Stream.peek": {"self": "source", "n": "scalar", "constructor": "callable"},
+    "Stream.skip": {"self": "source", "n": "scalar"}, "Stream.limit": {"self": "source", "n": "scalar"},
+    "Stream.append": {"self": "source", "other": "aux"}, "Stream.map": {"self": "source", "func": "callable"},
+    "Stream.filter": {"self": "source", "func": "callable"}, "Stream.copy": {"self": "source"},
+    "Stream.blocks": {"self": "source", "args": "scalar", "kwargs": "scalar"},
+    "Streamix.add": {"self": "any", "delta": "scalar", "data": "source"},
+    "TableLookup.__call__": {"self": "any", "freq": "source", "phase": "aux"},
+    "LinearFilter.__call__": {"self": "any", "seq": "source", "memory": "container", "zero": "any"},
+    "chunks.struct": {"seq": "source", "size": "scalar", "dfmt": "any", "byte_order": "any", "padval": "any"},
+    "chunks.array": {"seq": "source", "size": "scalar", "dfmt": "any", "byte_order": "any", "padval": "any"},
+    "envelope.rms": {"sig": "source", "cutoff": "scalar"}, "envelope.abs": {"sig": "source", "cutoff": "scalar"},
+    "envelope.squared": {"sig": "source", "cutoff": "scalar"},
+    "overlap_add.list": {"blk_sig": "source", "size": "scalar", "hop": "scalar", "wnd": "container", "normalize": "flag"},
+    "lowpass.pole": {"cutoff": "aux"}, "lowpass.z": {"cutoff": "aux"}, "highpass.pole": {"cutoff": "aux"}, "highpass.z": {"cutoff": "aux"},
+    "resonator.poles_exp": {"freq": "aux", "bandwidth": "aux"}, "resonator.z_exp": {"freq": "aux", "bandwidth": "aux"},
+    "comb.fb": {"delay": "scalar", "alpha": "aux"}, "comb.tau": {"delay": "scalar", "tau": "aux"}, "comb.ff": {"delay": "scalar", "alpha": "aux"},
+    "accumulate.func": {"iterable": "source"},
+}
+ELEMENTWISE_EXTRA = ("freq2lag", "lag2freq", "freq_to_lag", "lag_to_freq", "freq2midi", "midi2freq")
+
+
+def _public_api():
+    """{api name: object} - see the comment above; aliases of one strategy function are one name"""
+    al = _al()
+    out = {}
+    classes = {"Stream": ("__call__", "__getattr__", "__iter__", "__abs__"), "StreamTeeHub": ("__iter__",), "Streamix": (),
+               "TableLookup": ("__call__",), "LinearFilter": ("__call__",), "CascadeFilter": ("__call__",),
+               "ParallelFilter": ("__call__",), "Poly": ("__call__",)}
+    for name in al.__all__:
+        obj = getattr(al, name)
+        if isinstance(obj, al.StrategyDict):
+            seen = {}
+            for keys, func in obj.items():
+                first = [k for k in keys if ("%s.%s" % (name, k)) in COVER or ("%s.%s" % (name, k)) in EXCLUDE]
+                out["%s.%s" % (name, (first or sorted(keys))[0])] = func
+            continue
+        if not callable(obj):
+            continue
+        out[name] = obj
+        if name in classes:
+            # the filter / polynomial classes: only the call is a stage (the rest is analysis of coefficients)
+            only_call = name in ("LinearFilter", "CascadeFilter", "ParallelFilter", "Poly")
+            own = [m for m in vars(obj) if (not m.startswith("_") and not only_call) or m in classes[name]]
+            for m in own:
+                out["%s.%s" % (name, m)] = getattr(obj, m)
+    out["Stream.<operators>"] = None
+    return out
+
+
+def _probe_elementwise(func, value=0.25):
+    """an elementwise function on a Stream over a counting source: (reads at construction, reads after 3 outputs)"""
+    al = _al()
+    src = Src(None, vals="pos", cap=50)
+    src.value = lambda i: value          # inside the domain of the functions of lazy_math (acosh: 1.5)
+    res = func(al.Stream(src))
+    c0 = src.count
+    itr = iter(res)
+    for _ in range(3):
+        next(itr)
+    return c0, src.count
+
+
+def extra_checks(eng):
+    import inspect
+    al = _al()
+    R, X = registry(), xregistry()
+    api = _public_api()
+    elementwise = set(n for n in al.lazy_math.__all__ if callable(getattr(al, n)) and n not in EXCLUDE) | set(ELEMENTWISE_EXTRA)
+    unknown, dangling, lazy_bad = [], [], []
+    for name, obj in sorted(api.items()):
+        fam = name.split(".")[0]
+        if name in COVER:
+            for e in COVER[name]:
+                ok = (e[2:] in X) if e.startswith("x:") else e.startswith("entry:") or e in R
+                if not ok:
+                    dangling.append("%s -> %s" % (name, e))
+        elif name in EXCLUDE or fam in BLOCK_DICTS:
+            pass
+        elif name in elementwise:
+            try:
+                try:
+                    c0, c3 = _probe_elementwise(obj)
+                except ValueError:
+                    c0, c3 = _probe_elementwise(obj, 1.5)
+                if (c0, c3) != (0, 3):
+                    lazy_bad.append("%s: %d reads at construction, %d for 3 outputs" % (name, c0, c3))
+            except Exception as e:
+                lazy_bad.append("%s: %s" % (name, err_kind(e)))
+        else:
+            unknown.append(name)
+    stale = sorted(n for n in list(COVER) + list(EXCLUDE) if n not in api and n.split(".")[0] not in BLOCK_DICTS)
+    yield ("api-complete", not unknown,
+           "public callables that are neither in the registry nor in the justified exclusion list: %s" % ", ".join(unknown))
+    yield ("api-table-current", not dangling and not stale,
+           "table entries without a registry entry: %s; names that are no longer public: %s" % (dangling, stale))
+    yield ("elementwise-all-lazy", not lazy_bad, "; ".join(lazy_bad))
+    eng.count("api_names", "covered by the registry", sum(1 for n in api if n in COVER))
+    eng.count("api_names", "elementwise (all probed)", sum(1 for n in api if n in elementwise and n not in COVER))
+    eng.count("api_names", "excluded with a reason", sum(1 for n in api if n in EXCLUDE or n.split(".")[0] in BLOCK_DICTS))
+    # every parameter of the covered callables is classified, and the classification is current
+    bad = []
+    for name, roles in sorted(PARAMS.items()):
+        obj = api.get(name)
+        if obj is None:
+            bad.append("%s: not public any more" % name)
+            continue
+        try:
+            params = list(inspect.signature(obj).parameters)
+        except (TypeError, ValueError):
+            bad.append("%s: no signature" % name)
+            continue
+        if sorted(params) != sorted(roles):
+            bad.append("%s%r is classified as %r" % (name, tuple(params), sorted(roles)))
+    yield ("parameters-classified", not bad, "; ".join(bad))
+    # a registry entry that nothing refers to is not tied to the API
+    used = set(e for es in COVER.values() for e in es)
+    orphan = sorted(n for n in R if n not in used and n not in ("elementwise",)) + sorted("x:" + n for n in X if "x:" + n not in used)
+    yield ("registry-entries-tied-to-api", not orphan, "registry entries no public name refers to: %s" % orphan)
+
 _INSTALLED = False
 
 
